@@ -736,8 +736,10 @@ def tryNormalize (d : List (DomVar α)) (lhs : Exp α) (cmp : Cmp) (rhs : Exp α
       match cmpHolds zero cmp c, cmpHolds one cmp c with
       | false, true => some (.assertion e true)
       | true, false => some (.assertion e false)
-      | true, true => some .tautology
-      | false, false => some .contradiction
+      -- fix ba14904: a logic value whose evaluation may fail is not decided from the constant alone — the
+      -- generic path lowers it and reports the error
+      | true, true => if Exp.mayBeUndefined e then none else some .tautology
+      | false, false => if Exp.mayBeUndefined e then none else some .contradiction
 
 /-! ### `Linearizer::linearize` -/
 
